@@ -153,6 +153,15 @@ def fam_frag(counts, tier: str, rnd: random.Random) -> list[dict]:
                             sc["rfaults"] = [[f, {"k": "ans", "d": 1}], [{"k": "ans", "d": 1}]]
                             sc["family"] = "frag"
                             out.append(sc)
+                # the same exact splits with contents that look like a frame header wherever the answer is cut
+                for pat in ("aa55", "55aa", "aa557fc0"):
+                    sc = base(kind, True, 1, fr)
+                    sc["epochs"] = [[{"start": 0, "prog": [req(100, n=n), {"do": "sleep", "d": 0}, req(101, n=n)]}]]
+                    sc["rfaults"] = [[{"k": "frag", "split": split, "d": 1, "d2": 2, "second": "exact"}, {"k": "ans", "d": 1}],
+                                     [{"k": "ans", "d": 1}]]
+                    sc["payloads"] = {"100": pat}
+                    sc["family"] = "frag"
+                    out.append(sc)
     return out
 
 
@@ -258,7 +267,7 @@ def fam_lifecycle(tier: str, rnd: random.Random, limit: int) -> list[dict]:
     al = [{"k": "ans", "d": 1}, {"k": "drop"}, {"k": "garbage", "d": 1}, {"k": "exc", "code": 2, "d": 1},
           {"k": "pclose", "d": 1}, {"k": "err", "d": 1, "err": errno.ENETUNREACH},
           {"k": "anseof", "d": 1, "d2": 2}, {"k": "ansclose", "d": 1, "d2": 2}, {"k": "eof", "d": 1}]
-    between = ["none", "close", "loop", "close+loop", "sleep"]
+    between = ["none", "close", "loop", "close+loop", "sleep", "loop+close"]
     nreq = 3 if tier == "quick" else 4
     for kind in ("udp", "tcp"):
         for ka in (True, False):
@@ -272,12 +281,14 @@ def fam_lifecycle(tier: str, rnd: random.Random, limit: int) -> list[dict]:
                     epochs[-1][0]["prog"].append(req(100 + k))
                     if k < nreq - 1:
                         b = betw[k]
-                        if "close" in b:
+                        if "close" in b and b != "loop+close":
                             epochs[-1][0]["prog"].append({"do": "close"})
                         if b == "sleep":
                             epochs[-1][0]["prog"].append({"do": "sleep", "d": 2 * T})
                         if "loop" in b:
                             epochs.append([{"start": 0, "prog": []}])
+                            if b == "loop+close":
+                                epochs[-1][0]["prog"].append({"do": "close"})
                         elif b == "none":
                             epochs[-1][0]["prog"].append({"do": "sleep", "d": 0})
                 # a final well-answered request and a close(): the next request works, nothing stays open
